@@ -15,6 +15,20 @@ Hypotheses shared by the coverage theorems, and why they are there:
 * `pf` monotone + `ListingsFollowPrefixes`: a bucket name starts with the prefix of the directory it
   is listed in, so names of later prefixes compare greater; the code relies on this because
   `last-complete-bucket` is not reset between prefixes.
+
+## Coverage of the statement (properties.jsonl C27)
+
+| clause of the statement | theorem(s) on the model |
+|---|---|
+| "under any pattern of time-slice interruptions" (every oracle stream, per slice) | quantified in every theorem below (`Event.slice ls o`, `o` arbitrary) |
+| "… and restarts from its persisted state" - the state file is what a restarted process resumes from | `state_file_tracks_memory` (file = in-memory progress incl. last-complete-bucket after EVERY event), `proc_refines_slice_machine` (explicit save_state/load_state machine makes the same calls), `load_save_round_trip` |
+| "each crawl cycle processes every bucket that exists throughout the cycle at least once" (kills at any point included) | `covers_at_least_once`, process level: `covers_at_least_once_proc` |
+| "exactly once when the process is not killed in the middle of a slice" (restarts and orderly stops between slices allowed) | `exactly_once_without_kill`, `exactly_once_without_kill_proc`; stronger upper bound `at_most_once_without_kill` |
+| resumption is exactly after the marker (nothing at or before last-complete-bucket is repeated inside a slice) | `slice_calls_beyond_marker` |
+| "cycle numbers increase by one per completed cycle" | `cycle_numbers_increment` |
+| constants: 1024 sorted two-character prefixes | `num_prefixes_pinned` |
+| why the hypotheses: one prefix / a mid-slice kill | `single_prefix_stale_cache`, `kill_repeats_work` (counterexamples) |
+| timing (`allowed_cpu_percentage`, sleep times), subclass state in the state file, atomicity of the file write | not covered (correspondence exercises save/load through the real file only) |
 -/
 namespace Tahoe.C27
 open Tahoe.Storage.Crawler
@@ -74,6 +88,88 @@ theorem cycle_numbers_increment (np : Nat) (evs : List Event) (ev : Event) :
     (r.1.p.lcf = s.p.lcf ∨ (r.1.p.lcf = some (nextCycle s.p.lcf) ∧ r.1.p.cur = none)) ∧
     ∀ e ∈ r.2, e.cycle = nextCycle s.p.lcf :=
   step_cycle np _ ev (run_wfC np evs init wfC_init)
+
+/-! ### The state file (process machine: in-memory crawler + JSON file, explicit save_state / load_state) -/
+
+/-- `load_state ∘ save_state` loses nothing of the base-class progress (incl. the prefix-name ↔ index
+    mapping of "last-complete-prefix" and "last-complete-bucket"). -/
+theorem load_save_round_trip (p : Persist) : (loadState (saveState p)).p = p := load_save p
+
+/-- After every event of every schedule (slices, kills at any point, restarts, orderly stops), what a
+    new process would load from the state file is exactly the progress the running process has in
+    memory - `current-cycle`, `last-cycle-finished`, last complete prefix AND `last-complete-bucket`. -/
+theorem state_file_tracks_memory (np : Nat) (evs : List PEvent) :
+    let P := (runProc np procInit evs).1
+    loadFile P.file = { P.mem with cache := none } :=
+  runProc_sync np evs procInit sync_init
+
+/-- The machine with an explicit state file makes exactly the `process_bucket` calls of the slice
+    machine (an orderly stop behaves like a restart), and ends in the same in-memory state: every
+    theorem about `run` is a theorem about processes restarted from their persisted state. -/
+theorem proc_refines_slice_machine (np : Nat) (evs : List PEvent) :
+    (runProc np procInit evs).1.mem = (run np init (evs.map PEvent.toEvent)).1 ∧
+    (runProc np procInit evs).2 = (run np init (evs.map PEvent.toEvent)).2 :=
+  runProc_eq_run np evs procInit sync_init
+
+/-- coverage, stated for processes and their state file -/
+theorem covers_at_least_once_proc (np : Nat) (hnp : 2 ≤ np)
+    (pf : Nat → Nat) (hmono : ∀ a b, a ≤ b → pf a ≤ pf b)
+    (evs : List PEvent) (hls : ListingsFollowPrefixes pf (evs.map PEvent.toEvent))
+    (c p b : Nat) (hp : p < np) (hpb : pf b = p)
+    (hpres : PresentThroughout np c p b init (evs.map PEvent.toEvent))
+    (hdone : ∃ c', (loadFile (runProc np procInit evs).1.file).p.lcf = some c' ∧ c ≤ c') :
+    (⟨c, p, b⟩ : Entry) ∈ (runProc np procInit evs).2 := by
+  obtain ⟨h1, h2⟩ := proc_refines_slice_machine np evs
+  have hs := state_file_tracks_memory np evs
+  simp only at hs
+  rw [hs, h1] at hdone
+  rw [h2]
+  exact covers_at_least_once np hnp pf hmono _ hls c p b hp hpb hpres hdone
+
+/-- exactly once, stated for processes: restarts and orderly stops between slices are allowed -/
+theorem exactly_once_without_kill_proc (np : Nat) (hnp : 2 ≤ np)
+    (pf : Nat → Nat) (hmono : ∀ a b, a ≤ b → pf a ≤ pf b)
+    (evs : List PEvent) (hls : ListingsFollowPrefixes pf (evs.map PEvent.toEvent))
+    (hnokill : ∀ ev ∈ evs, ev.toEvent.isKill = false)
+    (c p b : Nat) (hp : p < np) (hpb : pf b = p)
+    (hpres : PresentThroughout np c p b init (evs.map PEvent.toEvent))
+    (hdone : ∃ c', (loadFile (runProc np procInit evs).1.file).p.lcf = some c' ∧ c ≤ c') :
+    (runProc np procInit evs).2.count (⟨c, p, b⟩ : Entry) = 1 := by
+  obtain ⟨h1, h2⟩ := proc_refines_slice_machine np evs
+  have hs := state_file_tracks_memory np evs
+  simp only at hs
+  rw [hs, h1] at hdone
+  rw [h2]
+  refine exactly_once_without_kill np hnp pf hmono _ hls ?_ c p b hp hpb hpres hdone
+  intro ev hev
+  obtain ⟨pe, hpe, rfl⟩ := List.mem_map.1 hev
+  exact hnokill pe hpe
+
+/-- Resumption is strictly after the marker: a slice started in state `s` (fresh from the state
+    file or not) never calls `process_bucket` for a name at or before `last-complete-bucket`. -/
+theorem slice_calls_beyond_marker (np : Nat) (ls : Nat → List Nat) (s : St) (o : List Bool) :
+    ∀ e ∈ (slice np ls s o).2, ∀ l, s.p.lcb = some l → l < e.bucket := by
+  intro e he l hl
+  have h := (loop_log ls (cycleOf s.p) (np - s.p.next) s.p.next s.p.lcb s.cache o).2.1
+  have he' : e ∈ (loop ls (cycleOf s.p) (np - s.p.next) s.p.next s.p.lcb s.cache o).log := by
+    simp only [slice] at he; split at he <;> exact he
+  have := (h e he').2.1
+  have hn : ¬ e.bucket ≤ l := fun hle => this ⟨l, hl, hle⟩
+  omega
+
+/-- Non-vacuity for the process theorems: interruption inside prefix 1, orderly stop, a second
+    interruption inside the same prefix, process lost, rest of the cycle: the file follows the marker
+    (3, then 5), nothing is repeated. -/
+example :
+    let evs : List PEvent := [.slice exLs [false, true], .stop, .slice exLs [true], .restart, .slice exLs []]
+    (runProc 3 procInit evs).2 = [⟨0,1,3⟩, ⟨0,1,5⟩, ⟨0,2,9⟩] ∧
+    (runProc 3 procInit (evs.take 1)).1.file = some ⟨some 0, none, some 0, some 3⟩ ∧
+    (runProc 3 procInit (evs.take 3)).1.file = some ⟨some 0, none, some 0, some 5⟩ ∧
+    (runProc 3 procInit evs).1.file = some ⟨none, some 0, none, none⟩ := by
+  decide
+
+example : (loadState (saveState ⟨some 4, some 3, 7, some 12⟩)).p = ⟨some 4, some 3, 7, some 12⟩ ∧
+    saveState ⟨some 4, some 3, 7, some 12⟩ = ⟨some 4, some 3, some 6, some 12⟩ := by decide
 
 /-! Non-vacuity: three prefixes, buckets 3 and 5 under prefix 1 (listed unsorted), 9 under prefix 2.
     Slice interrupted after the second check, a slice killed after one call, two more slices. -/
